@@ -61,9 +61,11 @@ func (c *PushedAuthorizeHandler) HandlePushedAuthorizeEndpointRequest(ctx contex
 	}
 
 	expiresIn := configProvider.GetPushedAuthorizeContextLifespan(ctx)
-	if ar.GetSession() != nil {
-		ar.GetSession().SetExpiresAt(fosite.PushedAuthorizeRequestContext, time.Now().UTC().Add(expiresIn))
+	if ar.GetSession() == nil {
+		// The expiry of the pushed request is kept in its session: without one the request would never expire.
+		ar.SetSession(new(fosite.DefaultSession))
 	}
+	ar.GetSession().SetExpiresAt(fosite.PushedAuthorizeRequestContext, time.Now().UTC().Add(expiresIn))
 
 	// generate an ID
 	stateKey, err := hmac.RandomBytes(defaultPARKeyLength)
